@@ -307,6 +307,69 @@ func endpoints() []endpoint {
 	}
 }
 
+// equivalent HTTP / gRPC requests at the boundary values of every validated numeric field: either both front ends refuse
+// the request, or both hand the kernel the same request
+func boundaries() []endpoint {
+	rid := map[string]string{"request-id": "rid"}
+	recvL := &pb.Recv{Recv: &pb.Recv_Logical{Logical: "default"}}
+	var out []endpoint
+	for _, ttl := range []int{0, 1, 2147483647} {
+		ttl := ttl
+		out = append(out, endpoint{fmt.Sprintf("ClaimTask:ttl=%d", ttl), t_api.ClaimTask, "POST", "/tasks/claim", rid, fmt.Sprintf(`{"id":"t","counter":2,"processId":"w","ttl":%d}`, ttl),
+			func(c *clients) (any, error) {
+				return c.t.ClaimTask(ctx, &pb.ClaimTaskRequest{Id: "t", Counter: 2, ProcessId: "w", Ttl: int32(ttl), RequestId: "rid"})
+			}, "", 0})
+		out = append(out, endpoint{fmt.Sprintf("AcquireLock:ttl=%d", ttl), t_api.AcquireLock, "POST", "/locks/acquire", rid, fmt.Sprintf(`{"resourceId":"r","executionId":"e","processId":"w","ttl":%d}`, ttl),
+			func(c *clients) (any, error) {
+				return c.l.AcquireLock(ctx, &pb.AcquireLockRequest{ResourceId: "r", ExecutionId: "e", ProcessId: "w", Ttl: int64(ttl), RequestId: "rid"})
+			}, "", 0})
+		out = append(out, endpoint{fmt.Sprintf("CreatePromiseAndTask:ttl=%d", ttl), t_api.CreatePromiseAndTask, "POST", "/promises/task", rid, fmt.Sprintf(`{"promise":{"id":"p","timeout":9},"task":{"processId":"w","ttl":%d}}`, ttl),
+			func(c *clients) (any, error) {
+				return c.p.CreatePromiseAndTask(ctx, &pb.CreatePromiseAndTaskRequest{Promise: &pb.CreatePromiseRequest{Id: "p", Timeout: 9, RequestId: "rid"}, Task: &pb.CreatePromiseTaskRequest{ProcessId: "w", Ttl: int32(ttl)}})
+			}, "", 0})
+	}
+	// counters: 1 and the largest value; 0 is not a well-formed HTTP request (gin's `required` on an int treats 0 as
+	// absent and answers 400, while gRPC cannot tell 0 from absent and passes it on - observation O4 in DESIGN.md)
+	for _, n := range []int{1, 2147483647} {
+		n := n
+		out = append(out, endpoint{fmt.Sprintf("ClaimTask:counter=%d", n), t_api.ClaimTask, "POST", "/tasks/claim", rid, fmt.Sprintf(`{"id":"t","counter":%d,"processId":"w","ttl":1}`, n),
+			func(c *clients) (any, error) {
+				return c.t.ClaimTask(ctx, &pb.ClaimTaskRequest{Id: "t", Counter: int32(n), ProcessId: "w", Ttl: 1, RequestId: "rid"})
+			}, "", 0})
+		out = append(out, endpoint{fmt.Sprintf("CompleteTask:counter=%d", n), t_api.CompleteTask, "POST", "/tasks/complete", rid, fmt.Sprintf(`{"id":"t","counter":%d}`, n),
+			func(c *clients) (any, error) {
+				return c.t.CompleteTask(ctx, &pb.CompleteTaskRequest{Id: "t", Counter: int32(n), RequestId: "rid"})
+			}, "", 0})
+	}
+	for _, n := range []int{0, 1} {
+		n := n
+		out = append(out, endpoint{fmt.Sprintf("CreatePromise:timeout=%d", n), t_api.CreatePromise, "POST", "/promises", rid, fmt.Sprintf(`{"id":"p","timeout":%d}`, n),
+			func(c *clients) (any, error) {
+				return c.p.CreatePromise(ctx, &pb.CreatePromiseRequest{Id: "p", Timeout: int64(n), RequestId: "rid"})
+			}, "", 0})
+		out = append(out, endpoint{fmt.Sprintf("CreateCallback:timeout=%d", n), t_api.CreateCallback, "POST", "/callbacks", rid, fmt.Sprintf(`{"Id":"cb","promiseId":"p","rootPromiseId":"root","timeout":%d,"recv":"default"}`, n),
+			func(c *clients) (any, error) {
+				return c.cb.CreateCallback(ctx, &pb.CreateCallbackRequest{Id: "cb", PromiseId: "p", RootPromiseId: "root", Timeout: int64(n), Recv: recvL, RequestId: "rid"})
+			}, "", 0})
+		out = append(out, endpoint{fmt.Sprintf("CreateSubscription:timeout=%d", n), t_api.CreateSubscription, "POST", "/subscriptions", rid, fmt.Sprintf(`{"Id":"sub","promiseId":"p","timeout":%d,"recv":"default"}`, n),
+			func(c *clients) (any, error) {
+				return c.su.CreateSubscription(ctx, &pb.CreateSubscriptionRequest{Id: "sub", PromiseId: "p", Timeout: int64(n), Recv: recvL, RequestId: "rid"})
+			}, "", 0})
+	}
+	for _, lim := range []int{1, 100} {
+		lim := lim
+		out = append(out, endpoint{fmt.Sprintf("SearchPromises:limit=%d", lim), t_api.SearchPromises, "GET", fmt.Sprintf("/promises?id=p*&limit=%d", lim), rid, "",
+			func(c *clients) (any, error) {
+				return c.p.SearchPromises(ctx, &pb.SearchPromisesRequest{Id: "p*", Limit: int32(lim), RequestId: "rid"})
+			}, "", 0})
+		out = append(out, endpoint{fmt.Sprintf("SearchSchedules:limit=%d", lim), t_api.SearchSchedules, "GET", fmt.Sprintf("/schedules?id=s*&limit=%d", lim), rid, "",
+			func(c *clients) (any, error) {
+				return c.sc.SearchSchedules(ctx, &pb.SearchSchedulesRequest{Id: "s*", Limit: int32(lim), RequestId: "rid"})
+			}, "", 0})
+	}
+	return out
+}
+
 // ---------------------------------------------------------------- cases
 
 // malformed requests: every field absent / empty / null / negative / huge / wrongly typed / hostile, in both protocols.
@@ -559,6 +622,9 @@ func enumerate(statuses []int) []caseT {
 	for i, b := range malformed() {
 		cs = append(cs, caseT{Ep: b.name, Proto: "malformed", Bad: i})
 	}
+	for i, b := range boundaries() {
+		cs = append(cs, caseT{Ep: b.name, Proto: "boundary", Bad: i})
+	}
 	// ids in URL paths reach the kernel exactly as the client spelled them (percent-decoding only)
 	for _, t := range [][2]string{{"ReadPromise", "/promises/"}, {"ResolvePromise", "/promises/"}, {"ReadSchedule", "/schedules/"}, {"DeleteSchedule", "/schedules/"}} {
 		for _, id := range pathIds {
@@ -708,6 +774,32 @@ func child(from, to int, factsPath, driverPath string) {
 				cm, _ := canon.Req(hreq)["c"].(map[string]any)
 				if got := fmt.Sprint(cm["id"]); got != c.Want {
 					problem = fmt.Sprintf("path %s: the kernel received id %q, the client addressed %q", c.Path, got, c.Want)
+				}
+			}
+		} else if c.Proto == "boundary" {
+			e = boundaries()[c.Bad]
+			stub.next = func(r *t_api.Request) (*t_api.Response, error) { return mkResponse(r.Kind, t_api.StatusOK, 1), nil }
+			stub.captured = nil
+			hres, _, herr := doHTTP(e)
+			hreq := stub.captured
+			stub.captured = nil
+			_, gerr := e.grpc(cl)
+			greq := stub.captured
+			switch {
+			case herr != nil:
+				problem = fmt.Sprintf("no HTTP reply: %v", herr)
+			case hreq == nil && greq == nil:
+				// both refused
+				if hres.StatusCode < 400 || hres.StatusCode >= 500 || gerr == nil {
+					problem = fmt.Sprintf("neither request reached the kernel but not both were refused as client errors: http %d, grpc %v", hres.StatusCode, gerr)
+				}
+			case hreq == nil || greq == nil:
+				problem = fmt.Sprintf("equivalent requests are treated differently: http reached the kernel=%v (status %d), grpc reached the kernel=%v (%v)", hreq != nil, hres.StatusCode, greq != nil, gerr)
+			default:
+				a, _ := json.Marshal(canon.Req(hreq))
+				b, _ := json.Marshal(canon.Req(greq))
+				if !bytes.Equal(a, b) {
+					problem = fmt.Sprintf("translated kernel requests differ: http=%s grpc=%s", a, b)
 				}
 			}
 		} else if c.Proto == "equiv" {
